@@ -21,6 +21,8 @@ ENGINES = {
     "C14": "e6_loops",
     "C37": "e8_omp",
     "C45": "riders",
+    "C36": "riders",
+    "C39": "riders",
 }
 
 
